@@ -721,6 +721,20 @@ fn op_startswith(f: &mut Fields) -> R {
     Ok(format!("ok {}", a.starts_with(&b)))
 }
 
+fn op_cmparcs(f: &mut Fields) -> R {
+    let a = SnmpOid::from(f.hex()?);
+    let b = SnmpOid::from(f.hex()?);
+    f.end()?;
+    Ok(format!(
+        "ok {}",
+        match a.cmp_arcs(&b) {
+            std::cmp::Ordering::Less => "lt",
+            std::cmp::Ordering::Equal => "eq",
+            std::cmp::Ordering::Greater => "gt",
+        }
+    ))
+}
+
 // ---------------------------------------------------------------------------
 // Buffer
 // ---------------------------------------------------------------------------
@@ -1092,6 +1106,7 @@ fn dispatch(line: &str) -> R {
         "oidstr" => op_oidstr(&mut f),
         "oidtxt" => op_oidtxt(&mut f),
         "startswith" => op_startswith(&mut f),
+        "cmparcs" => op_cmparcs(&mut f),
         "buf" => op_buf(&mut f),
         "topy" => op_topy(&mut f),
         "walk" => op_walk(&mut f),
